@@ -70,6 +70,54 @@ theorem limit_pushdown_needs_guard :
 the plan guard alone would admit `RETURN count(r) LIMIT 1` -/
 example : planGuard ⟨false, true, false, false, false, 1, 0⟩ = true := by decide
 
+/-- T-tie: `selectContainsAggregate` is the analysed visitor (descends everywhere, never consumes) -/
+theorem aggregate_helper_tie : Generated.C02Guard.aggregateHelper = aggregateHelperFacts := by decide +kernel
+
+/-- what `TailShape.aggregate` means on the Lean AST: an aggregate at ANY depth — collect(x)'s lowering is found -/
+example : hasAggL [.cast (.call "array_remove" [.call "coalesce" [.cast (.call "array_agg" [.compound ["s0", "n1"]] false false "") "nodecomposite[]",
+    .array [] "nodecomposite[]"] false false "", .lit .null ""] false false "") "nodecomposite[]"] = true := by decide
+
+/-! ### aggregate traversal count: the depth-bound guard -/
+
+theorem depth_guard_tie : Generated.C02Guard.depthBounds = depthBoundsFacts := by decide
+
+/-- `agg_count_depth_preserves`: under the code's guard (lower bound ≥ 1) the CTE that starts at depth 1 enumerates the same terminals as
+the general expansion -/
+theorem agg_count_depth_preserves {α : Type} (lo hi : Nat) (h : depthGuard lo hi = true) (W : Nat → List α) :
+    loweredDepths lo hi W = generalDepths lo hi W := by
+  unfold depthGuard at h
+  simp only [Bool.and_eq_true, Bool.not_eq_true', decide_eq_false_iff_not, Nat.not_lt] at h
+  unfold loweredDepths generalDepths
+  congr 1
+  apply List.filter_congr
+  intro d _
+  have : (1 ≤ d) ∨ ¬ (lo ≤ d) := by omega
+  rcases this with h1 | h1 <;> simp [h1]
+
+/-- without the guard (lower bound 0) the zero-length matches are lost -/
+theorem agg_count_depth_needs_guard : loweredDepths 0 1 (fun d => [d]) ≠ generalDepths 0 1 (fun d => [d]) := by decide
+
+/-! ### collect-id membership: the declaration test -/
+
+theorem alias_declaration_tie : Generated.C02Guard.aliasDeclaration = aliasDeclarationFacts := by decide
+
+/-- `collect_id_lowering_blocked_by_reprojection`: with the declaration recognised by node identity, re-projecting the collection under
+its own name (`RETURN c, xs AS xs` — another `… AS xs` node) is a different occurrence… of the ALIAS position only; the read `xs` on its
+left is an `other` read, so the id lowering is not chosen and the collection keeps its nodes -/
+theorem collect_id_lowering_blocked_by_reprojection (decl reproj read : Nat) (hne : reproj ≠ decl) (occs : List Occ) :
+    idLoweringChosen decl (occs ++ [(read, .other), (reproj, .aliasOfProjection)]) = false := by
+  unfold idLoweringChosen
+  simp only [List.filter_append, List.all_append, Bool.and_eq_false_iff]
+  right; right
+  have h2 : (reproj == decl) = false := by simpa using hne
+  simp [h2]
+
+/-- recognising the declaration by symbol would take the re-projected alias for the declaration; when the projected read is not counted
+either (the seeded defect), the lowering is chosen although the collection is returned -/
+theorem collect_id_by_symbol_differs :
+    idLoweringChosen 0 [(0, .aliasOfProjection), (1, .membershipOperand), (2, .aliasOfProjection)] = false ∧
+    idLoweringChosenBySymbol [(0, .aliasOfProjection), (1, .membershipOperand), (2, .aliasOfProjection)] = true := by decide
+
 /-! ### projection pruning -/
 
 theorem lookup_prune (used : List String) (c : String) (hc : c ∈ used) : ∀ (r : Row), (prune used r).lookup c = r.lookup c
